@@ -73,7 +73,7 @@ class P(Prop):
     def gen_case(self):
         rng = self.rng
         c = gen.circuit(rng, n_in=(1, 5), n_gates=(1, 10), max_arity=4, cyclic=rng.random() < 0.2, consts=0.2,
-                        p_out=0.3)
+                        p_out=0.3, selfloops=0.12)
         if rng.random() < 0.25:
             gen.add_flops(rng, c)
         if rng.random() < 0.3:  # second component
